@@ -87,7 +87,7 @@ Qed.
 Definition acc_prefixed (s : store) (q : bytes) : option bytes := rekeyed f_bal g_bal s q.
 
 Lemma switch_to_acc_prefixes_spec s s' :
-  switch_to_acc_prefixes s = Halt s' -> forall q, s' !! q = acc_prefixed s q.
+  switch_to_acc_prefixes s = Halt s' -> forall q : bytes, s' !! q = acc_prefixed s q.
 Proof.
   intros H q. unfold switch_to_acc_prefixes in H.
   apply (fold_outcome_pure acc_step (rekey_pure f_bal)) in H; [|exact acc_step_fault|exact acc_step_pure].
@@ -173,7 +173,7 @@ Qed.
 Definition cnr_migrated (s : store) (q : bytes) : option bytes := rekeyed f_cnr g_cnr s q.
 
 Lemma migrate_container_keys_spec s s' :
-  migrate_container_keys s = Halt s' -> forall q, s' !! q = cnr_migrated s q.
+  migrate_container_keys s = Halt s' -> forall q : bytes, s' !! q = cnr_migrated s q.
 Proof.
   intros H q. unfold migrate_container_keys in H.
   apply (fold_outcome_pure cnr_step (rekey_pure f_cnr)) in H; [|exact cnr_step_fault|exact cnr_step_pure].
@@ -466,7 +466,7 @@ Section Preserve.
   (** The whole storage after a Balance upgrade from [v < 0.20], key by key. *)
   Lemma deploy_balance_lookup e args s s' v :
     deploy_balance prevN verN e args s = Halt s' -> args_version args = Halt v -> v < 20000 ->
-    forall q, (length q = 20)%nat \/ (length q = 21)%nat \/ q ∉ bal_legacy_keys ->
+    forall q : bytes, (length q = 20)%nat \/ (length q = 21)%nat \/ q ∉ bal_legacy_keys ->
       s' !! q = acc_prefixed s q.
   Proof.
     intros H Hv Hlt q Hq. apply deploy_balance_spec in H as (v' & s1 & Hv' & _ & H1 & H2).
@@ -486,7 +486,7 @@ Section Preserve.
     - apply Hfr. exact Hq.
   Qed.
 
-  Lemma acc_prefixed_account s a :
+  Lemma acc_prefixed_account s (a : bytes) :
     (length a = 20)%nat ->
     acc_prefixed s (acc_prefix :: a) = match s !! a with Some v => Some v | None => s !! (acc_prefix :: a) end.
   Proof.
@@ -494,10 +494,10 @@ Section Preserve.
     reflexivity.
   Qed.
 
-  Lemma acc_prefixed_old s a : (length a = 20)%nat -> acc_prefixed s a = None.
+  Lemma acc_prefixed_old s (a : bytes) : (length a = 20)%nat -> acc_prefixed s a = None.
   Proof. intros Hl. unfold acc_prefixed, rekeyed, f_bal. rewrite Hl. reflexivity. Qed.
 
-  Lemma acc_prefixed_other s q :
+  Lemma acc_prefixed_other s (q : bytes) :
     (length q <> 20)%nat -> g_bal q = None -> acc_prefixed s q = s !! q.
   Proof.
     intros Hl Hg. unfold acc_prefixed, rekeyed, f_bal.
@@ -523,7 +523,7 @@ Section Preserve.
 
   Lemma deploy_container_lookup e args s s' :
     deploy_container prevN verN e args s = Halt s' ->
-    forall q, q ∉ cnr_legacy_keys -> s' !! q = cnr_migrated s q.
+    forall q : bytes, q ∉ cnr_legacy_keys -> s' !! q = cnr_migrated s q.
   Proof.
     intros H q Hq. apply deploy_container_spec in H as (v & s1 & _ & _ & H1 & H2).
     rewrite <- (migrate_container_keys_spec _ _ H1).
@@ -531,24 +531,24 @@ Section Preserve.
     apply (switch_to_notary_frame _ _ _ _ _ _ H2). exact Hq.
   Qed.
 
-  Lemma cnr_migrated_container s cid :
+  Lemma cnr_migrated_container s (cid : bytes) :
     (length cid = 32)%nat ->
     cnr_migrated s (cnr_prefix :: cid) = match s !! cid with Some v => Some v | None => s !! (cnr_prefix :: cid) end.
   Proof.
     intros Hl. unfold cnr_migrated, rekeyed, f_cnr, g_cnr. cbn [length]. rewrite Hl. cbn. reflexivity.
   Qed.
 
-  Lemma cnr_migrated_owner s k :
+  Lemma cnr_migrated_owner s (k : bytes) :
     (length k = 57)%nat ->
     cnr_migrated s (owner_prefix :: k) = match s !! k with Some v => Some v | None => s !! (owner_prefix :: k) end.
   Proof.
     intros Hl. unfold cnr_migrated, rekeyed, f_cnr, g_cnr. cbn [length]. rewrite Hl. cbn. reflexivity.
   Qed.
 
-  Lemma cnr_migrated_old s q : (length q = 32)%nat \/ (length q = 57)%nat -> cnr_migrated s q = None.
+  Lemma cnr_migrated_old s (q : bytes) : (length q = 32)%nat \/ (length q = 57)%nat -> cnr_migrated s q = None.
   Proof. intros [Hl|Hl]; unfold cnr_migrated, rekeyed, f_cnr; rewrite Hl; reflexivity. Qed.
 
-  Lemma cnr_migrated_other s q :
+  Lemma cnr_migrated_other s (q : bytes) :
     (length q <> 32)%nat -> (length q <> 57)%nat -> g_cnr q = None -> cnr_migrated s q = s !! q.
   Proof.
     intros H1 H2 Hg. unfold cnr_migrated, rekeyed, f_cnr.
@@ -1163,3 +1163,141 @@ Section NNS.
     - apply Forall_forall. intros [k d] Hin. apply elem_of_sfind in Hin as [_ Hp]. exact (is_prefix_head _ _ Hp).
   Qed.
 End NNS.
+
+(** * Container: the listings (List, ContainersOf, Count) *)
+
+Section ContainerLists.
+  Context (prevN verN : Z).
+
+  (** Layout predicate of a pre-upgrade Container storage: a key that starts
+      with 'x' or 'o' is a legacy container id (32 bytes) or owner-index key
+      (57 bytes) that happens to start with that byte — nothing else lives
+      under the two prefixes the new layout uses. *)
+  Definition legacy_wf_container (s : store) : Prop :=
+    forall (q v : bytes), s !! q = Some v ->
+      head q = Some cnr_prefix \/ head q = Some owner_prefix ->
+      length q = 32%nat \/ length q = 57%nat.
+
+  Definition legacy_wf_containerb (s : store) : bool :=
+    forallb (fun kv : bytes * bytes =>
+               match fst kv with
+               | x :: _ => if (x =? cnr_prefix)%N || (x =? owner_prefix)%N
+                           then (length (fst kv) =? 32)%nat || (length (fst kv) =? 57)%nat else true
+               | [] => true
+               end) (map_to_list s).
+
+  Lemma legacy_wf_containerb_spec s : legacy_wf_containerb s = true -> legacy_wf_container s.
+  Proof.
+    unfold legacy_wf_containerb, legacy_wf_container. rewrite forallb_forall. intros H q v Hq Hh.
+    specialize (H (q, v) ltac:(apply elem_of_list_In, elem_of_map_to_list; exact Hq)). cbn [fst] in H.
+    destruct q as [|x q]; [destruct Hh; discriminate|]. cbn [head] in Hh.
+    assert (Hx : ((x =? cnr_prefix)%N || (x =? owner_prefix)%N) = true).
+    { destruct Hh as [[= ->]|[= ->]]; reflexivity. }
+    rewrite Hx in H. apply orb_true_iff in H as [H|H]; apply Nat.eqb_eq in H; auto.
+  Qed.
+
+  Lemma cnr_migrated_x s (k0 : bytes) :
+    legacy_wf_container s ->
+    cnr_migrated s (cnr_prefix :: k0) = if (length k0 =? 32)%nat then s !! k0 else None.
+  Proof.
+    intros Hwf.
+    assert (Hnone : (length k0 <> 32)%nat \/ s !! k0 = None ->
+                    (length (cnr_prefix :: k0) <> 32)%nat -> (length (cnr_prefix :: k0) <> 57)%nat ->
+                    s !! (cnr_prefix :: k0) = None).
+    { intros _ H1 H2. destruct (s !! (cnr_prefix :: k0)) as [v|] eqn:E; [|reflexivity].
+      destruct (Hwf _ _ E (or_introl eq_refl)); contradiction. }
+    destruct (Nat.eqb_spec (length k0) 32) as [Hl|Hl].
+    - rewrite cnr_migrated_container by exact Hl. destruct (s !! k0) eqn:E; [reflexivity|].
+      apply Hnone; [auto|cbn; lia|cbn; lia].
+    - destruct (decide (length (cnr_prefix :: k0) = 32%nat \/ length (cnr_prefix :: k0) = 57%nat)) as [Ho|Ho].
+      + apply cnr_migrated_old. exact Ho.
+      + rewrite cnr_migrated_other; [apply Hnone; [auto|tauto|tauto]|tauto|tauto|].
+        unfold g_cnr. rewrite N.eqb_refl. cbn [andb].
+        destruct (Nat.eqb_spec (length k0) 32); [contradiction|]. reflexivity.
+  Qed.
+
+  Lemma cnr_migrated_o s (k0 : bytes) :
+    legacy_wf_container s ->
+    cnr_migrated s (owner_prefix :: k0) = if (length k0 =? 57)%nat then s !! k0 else None.
+  Proof.
+    intros Hwf.
+    assert (Hnone : (length (owner_prefix :: k0) <> 32)%nat -> (length (owner_prefix :: k0) <> 57)%nat ->
+                    s !! (owner_prefix :: k0) = None).
+    { intros H1 H2. destruct (s !! (owner_prefix :: k0)) as [v|] eqn:E; [|reflexivity].
+      destruct (Hwf _ _ E (or_intror eq_refl)); contradiction. }
+    destruct (Nat.eqb_spec (length k0) 57) as [Hl|Hl].
+    - rewrite cnr_migrated_owner by exact Hl. destruct (s !! k0) eqn:E; [reflexivity|].
+      apply Hnone; cbn; lia.
+    - destruct (decide (length (owner_prefix :: k0) = 32%nat \/ length (owner_prefix :: k0) = 57%nat)) as [Ho|Ho].
+      + apply cnr_migrated_old. exact Ho.
+      + rewrite cnr_migrated_other; [apply Hnone; tauto|tauto|tauto|].
+        unfold g_cnr. change (owner_prefix =? cnr_prefix)%N with false. cbn [andb]. rewrite N.eqb_refl. cbn [andb].
+        destruct (Nat.eqb_spec (length k0) 57); [contradiction|]. reflexivity.
+  Qed.
+
+  Lemma prefixed_not_legacy (x : N) (k0 : bytes) :
+    x = cnr_prefix \/ x = owner_prefix -> x :: k0 ∉ cnr_legacy_keys.
+  Proof.
+    intros Hx Hin. unfold cnr_legacy_keys in Hin.
+    apply elem_of_cons in Hin as [E|Hin]; [|apply elem_of_cons in Hin as [E|Hin]; [|inversion Hin]];
+      vm_compute in E; injection E as E _; destruct Hx as [->| ->]; vm_compute in E; discriminate.
+  Qed.
+
+  Lemma map_tail_rekey x (l : list (bytes * bytes)) :
+    map (fun kv : bytes * bytes => (tail (fst kv), snd kv)) (map (rekey_pair x) l) = l.
+  Proof. induction l as [|[k v] l IH]; cbn; [reflexivity|]. f_equal. exact IH. Qed.
+
+  Lemma container_lists_preserved e args s s' :
+    deploy_container prevN verN e args s = Halt s' -> legacy_wf_container s ->
+    cnr_all_new s' = cnr_all_old s /\
+    (forall owner, cnr_owned_new s' owner = cnr_owned_old s owner).
+  Proof.
+    intros H Hwf. pose proof (deploy_container_lookup _ _ _ _ _ _ H) as Hl. split.
+    - unfold cnr_all_new, cnr_all_old.
+      rewrite (sfind_rekeyed cnr_prefix 32 [] s s').
+      + apply map_tail_rekey.
+      + intros k0. rewrite Hl by (apply prefixed_not_legacy; auto). apply cnr_migrated_x. exact Hwf.
+    - intros owner. unfold cnr_owned_new, cnr_owned_old.
+      rewrite (sfind_rekeyed owner_prefix 57 owner s s').
+      + apply map_tail_rekey.
+      + intros k0. rewrite Hl by (apply prefixed_not_legacy; auto). apply cnr_migrated_o. exact Hwf.
+  Qed.
+End ContainerLists.
+
+(** * Alphabet: storage frame of the notary switch *)
+
+Section Alphabet.
+  Context (stdacc : bytes -> option bytes).
+  Context (prevN verN : Z).
+
+  Lemma alphabet_switch_frame e args s s' trs (q : bytes) :
+    alphabet_switch stdacc e args s = Halt (s', trs) ->
+    q ∉ [k_notary; k_ballots; k_proxySH] -> s' !! q = s !! q.
+  Proof.
+    unfold alphabet_switch. intros H Hq.
+    apply obind_halt in H as (nm & _ & H). apply obind_halt in H as (u & _ & H).
+    unfold sget in H. destruct (s !! k_notary) as [nv|] eqn:En.
+    - apply obind_halt in H as (b & _ & H). destruct b.
+      + repeat (apply obind_halt in H as (? & ? & H)).
+        injection H as <- _.
+        match goal with Hp : try_purge_votes _ _ = Halt ?r, Hput : sput k_proxySH _ _ = Halt _ |- _ =>
+          destruct r as [ok s1]; apply try_purge_votes_spec in Hp as [[-> ->]|[-> ->]];
+          apply sput_halt in Hput as [-> _] end.
+        * match goal with Ha : oassert (fst (false, _)) = Halt _ |- _ => cbn in Ha; discriminate end.
+        * cbn [snd]. unfold sdel. rewrite lookup_delete_ne by (intros <-; apply Hq; set_solver).
+          rewrite lookup_insert_ne by (intros <-; apply Hq; set_solver).
+          apply lookup_delete_ne. intros <-. apply Hq. set_solver.
+      + injection H as <- _. unfold sdel. apply lookup_delete_ne. intros <-. apply Hq. set_solver.
+    - apply obind_halt in H as (? & _ & H). injection H as <- _. reflexivity.
+  Qed.
+
+  Lemma deploy_alphabet_frame e args s s' trs (q : bytes) :
+    deploy_alphabet stdacc prevN verN e args s = Halt (s', trs) ->
+    q ∉ [k_notary; k_ballots; k_proxySH] -> s' !! q = s !! q.
+  Proof.
+    unfold deploy_alphabet. intros H Hq.
+    apply obind_halt in H as (v & _ & H). apply obind_halt in H as (u & _ & H).
+    destruct (v <? 17000); [exact (alphabet_switch_frame _ _ _ _ _ _ H Hq)|].
+    injection H as <- _. reflexivity.
+  Qed.
+End Alphabet.
